@@ -153,6 +153,46 @@ def check_single(defs_order, refs, container, opts):
     return None
 
 
+def check_shared_content(names, groups, container, opts, use_first):
+    """definitions with colliding names some of which have the same content (groups[i] = content class of names[i]); a separate object
+    refers to each of them: the annotation of member ri must be a class with the content of definition i (identical definitions may
+    share one class, different ones may not)"""
+    defs = {}
+    for n, g in zip(names, groups):
+        defs[n] = {"type": "object", "properties": {f"m{g}": {"type": "integer"}, "name": {"type": "string"}}, "required": ["name"]}
+    prefix = {"definitions": "#/definitions/", "$defs": "#/$defs/", "components": "#/components/schemas/"}[container]
+    user = {"type": "object", "properties": {f"r{i}": {"$ref": prefix + n} for i, n in enumerate(names)}}
+    if use_first:
+        defs = {"Shelter": user, **defs}
+    else:
+        defs["Shelter"] = user
+    if container == "components":
+        doc, ftype = {"openapi": "3.0.0", "info": {"title": "t", "version": "1"}, "paths": {}, "components": {"schemas": defs}}, "openapi"
+    else:
+        doc, ftype = {container: defs}, "jsonschema"
+    g = e2e.generate(json.dumps(doc), file_type=ftype, **opts)
+    if g.timeout:
+        return "generate() does not terminate"
+    if not g.ok:
+        return f"generation fails on a well-formed document: {g.error}"
+    if e2e.parses(g.text):
+        return f"output does not parse: {e2e.parses(g.text)}"
+    idx = class_index(g.text)
+    if "Shelter" not in idx:
+        return "no class Shelter"
+    for i, (n, grp) in enumerate(zip(names, groups)):
+        ann = idx["Shelter"][1].get(f"r{i}")
+        if ann is None:
+            return f"member r{i} of Shelter is missing"
+        leaves = [x for x in leaf_names(ann) if x in idx]
+        if len(leaves) != 1:
+            return f"Shelter.r{i} ($ref to {n!r}) is rendered as {ast.unparse(ann)}"
+        m = marker_of(idx[leaves[0]][1])
+        if m != grp:
+            return f"Shelter.r{i} is a $ref to {n!r} (content m{grp}) but lands on class {leaves[0]} with content m{m}"
+    return None
+
+
 def check_tree(files, entry, refs_expect, opts):
     """files: {relative path: json doc}; refs_expect: list of (class-marker, member, target marker)."""
     lib.WORK.mkdir(exist_ok=True)
@@ -235,6 +275,24 @@ def multi_file_collision(rng):
     return files, None, [(3, "p", 1), (3, "q", 2), (3, "o", 0)]
 
 
+def dir_lookalike(rng):
+    """directory input: a file with the same name (and a definition with the same name) at the root and in a sub-directory; refs with a
+    fragment from files of both levels must land on the sibling file's definition"""
+    obj = lambda i, extra=None: {"type": "object", "properties": {f"m{i}": {"type": "integer"}, **(extra or {})}}
+    sub = rng.choice(["billing", "sub", "zeta"])
+    shared = rng.choice(["common", "base", "types"])
+    user_root, user_sub = rng.choice([("account", "invoice"), ("zz_account", "aa_invoice"), ("a", "z")])
+    dname = rng.choice(["Meta", "Item"])
+    files = {
+        f"{shared}.json": {"title": "RootShared", "type": "object", "definitions": {dname: obj(0)}},
+        f"{user_root}.json": {"title": "RootUser", **obj(1, {"meta": {"$ref": f"{shared}.json#/definitions/{dname}"}})},
+        f"{sub}/{shared}.json": {"title": "SubShared", "type": "object", "definitions": {dname: obj(2)}},
+        f"{sub}/{user_sub}.json": {"title": "SubUser", **obj(3, {"meta": {"$ref": f"{shared}.json#/definitions/{dname}"},
+                                                                  "up": {"$ref": f"../{shared}.json#/definitions/{dname}"}})},
+    }
+    return files, None, [(1, "meta", 0), (3, "meta", 2), (3, "up", 0)]
+
+
 def falsify(ctx):
     rng = ctx.rng("fals")
     seen = 0
@@ -263,8 +321,24 @@ def falsify(ctx):
                 if seen <= 6:
                     ctx.violation(f"single:{json.dumps([defs_order, refs, container, opts])}", f"{container} {defs_order} refs {refs} {opts}: {why}",
                                   {"single": [defs_order, refs, container, opts], "why": why})
+    # colliding names with partly identical content: every content pattern over three and four definitions
+    for k in (3, 4):
+        pats = [p for p in itertools.product(range(3), repeat=k) if p[0] == 0]
+        for pat in pats:
+            # names that all want the class name Pet (every pattern), and - in the thorough tier - a random draw from the wider alphabet
+            names = ["Pet", "pet", "Pet_", "pet_"][:k] if not (ctx.thorough and rng.random() < 0.5) else rng.sample([n for n in NAMES if n != "Owner"], k)
+            container = rng.choice(["definitions", "$defs", "components"])
+            for use_first in (True, False):
+                ctx.count("eval_e2e")
+                ctx.nontrivial(json.dumps([names, pat, container, use_first]))
+                why = check_shared_content(names, list(pat), container, {}, use_first)
+                if why:
+                    seen += 1
+                    if seen <= 8:
+                        ctx.violation(f"shared:{json.dumps([names, pat, container, use_first])}", f"{names} content {pat} in {container}: {why}",
+                                      {"shared": [names, list(pat), container, use_first], "why": why})
     for _ in range(ctx.n(6, 40)):
-        for maker in (tree_case, multi_file_collision):
+        for maker in (tree_case, multi_file_collision, dir_lookalike):
             files, entry, expect = maker(rng)
             ctx.count("eval_e2e")
             ctx.nontrivial(json.dumps(sorted(files)))
@@ -277,8 +351,15 @@ def falsify(ctx):
     ctx.sample({"names": combos[0]})
 
 
+def _shared(r):
+    names, pat, container, use_first = r["shared"]
+    return check_shared_content(names, pat, container, {}, use_first)
+
+
 def replay_finding(ctx, f):
     r = f["replay"]
+    if "shared" in r:
+        return _shared(r) is not None
     if "single" in r:
         a = r["single"]
         return check_single([tuple(x) for x in a[0]], [tuple(x) for x in a[1]], a[2], a[3]) is not None
@@ -288,7 +369,9 @@ def replay_finding(ctx, f):
 
 def replay(ctx, payload):
     r = payload.get("replay", payload)
-    if "single" in r:
+    if "shared" in r:
+        why = _shared(r)
+    elif "single" in r:
         a = r["single"]
         why = check_single([tuple(x) for x in a[0]], [tuple(x) for x in a[1]], a[2], a[3])
     elif "tree" in r:
